@@ -65,7 +65,7 @@ class Hist(object):
         self.chain_obj = live.s.session.clientCertChain
         self.requests = 0
         self.tags = set()
-        self.min_rs = live.cfg['recsize']
+        self.min_rs = min(live.c.recordSize, live.s.recordSize)
         self.hb_need = 0
 
     # -- one operation
@@ -78,6 +78,8 @@ class Hist(object):
         if op[0] == 'ORequestAuth' and len(op) == 3:   # (replay files written before a078a25)
             op = ('ORequestAuth', op[2])
         o = L.do(a, op)
+        if op[0] == 'OSetRecSize':
+            op = ('OSetRecSize', op[1], o['rs_eff'])   # (user value, effective value = min(user, negotiated send limit))
         self.ops.append((a, op))
         self.obs.append(o)
         code = o['code']
@@ -126,7 +128,22 @@ class Hist(object):
             if not op[1]:
                 self.tags.add('pha-empty-compress-list')
         if k == 'OSetRecSize':
-            self.min_rs = min(self.min_rs, op[1])
+            self.min_rs = min(self.min_rs, o['rs_eff'])
+        # RFC 6520 section 4: a HeartbeatMessage is never split over records (the peer parses every
+        # heartbeat record as a whole message): what write_heartbeat sends is ONE record holding the whole
+        # request, what a read sends are whole responses with 16 bytes of padding
+        if k == 'OHeartbeat' and code == 0:
+            want = 3 + len(op[1]) + op[2]
+            if [len(b) for b in o['raw_hb']] != [want] or o['raw_hb'][0][:3] != bytes([1, len(op[1]) >> 8, len(op[1]) & 255]):
+                self.v('heartbeat-fragmented:request', 'write_heartbeat(%d-byte payload, padding %d) with recordSize %d put '
+                       'records of %s bytes on the wire instead of one whole message' % (
+                           len(op[1]), op[2], rs_before, [len(b) for b in o['raw_hb']]))
+        if k == 'ORead':
+            for b in o['raw_hb']:
+                if len(b) < 3 or b[0] != 2 or 3 + ((b[1] << 8) | b[2]) + 16 != len(b):
+                    self.v('heartbeat-fragmented:response', 'a read answered a heartbeat request with records of %s bytes '
+                           '(recordSize %d): not whole heartbeat_response messages' % ([len(x) for x in o['raw_hb']], rs_before))
+                    break
         if k == 'OHeartbeat' and code == 0:
             fits = 3 + len(op[1]) + op[2] <= rs_before
             self.hb_need = max(self.hb_need, 3 + len(op[1]) + max(16, op[2]))
@@ -139,11 +156,12 @@ class Hist(object):
         if a and k == 'ORead' and any(r[0] == 11 for r in o['recs']):   # (OReplayPha is not a new reply)
             cv = [r for r in o['recs'] if r[0] == 15]
             fin = [r for r in o['recs'] if r[0] == 20]
-            ok = (not cv or cv[0][1] == [1]) and fin and fin[0][1] == [1] and L.dev in (0, 4, 6)
+            ok = bool((not cv or cv[0][1] == [1]) and fin and fin[0][1] == [1] and L.dev in (0, 4, 6))
             if ok:
                 self.valid_replies += 1
             else:
-                self.must_fatal.append((False, 'pha-dev%d' % L.dev, len(self.written[True]), (47, 51, 116), i))
+                self.must_fatal.append((False, 'pha-dev%d' % L.dev, len(self.written[True]),
+                                        (10,) if L.dev == 7 else (47, 51, 116), i))
                 self.benign_only = False
             if L.dev == 6 and L.s.client_cert_required:
                 self.must_fatal.append((False, 'pha-empty-chain-required', len(self.written[True]), (116,), i))
@@ -246,7 +264,8 @@ class Hist(object):
                     if bytes(pl) not in sent:
                         self.v('heartbeat-echo-foreign-payload',
                                'a heartbeat response delivered to the %s callback carries a payload that was never requested '
-                               '(request longer than recordSize is fragmented by write_heartbeat)' % ('client' if a else 'server'))
+                               '(a heartbeat message was split over several records, by write_heartbeat or by the responder, and the peer '
+                               'answered / accepted a fragment)' % ('client' if a else 'server'))
         # injected bad control records: fatal alert, nothing delivered past them
         for (b, cls, pos, allowed, idx) in self.must_fatal:
             fe = self.first_err[b]
@@ -291,11 +310,19 @@ def gen_cfg(rng, klass, seed):
     if hb < 0.12:
         c_hb, s_hb = rng.choice([(False, False), (True, False), (False, True)])
     cipher = rng.choice(['aes128gcm', 'aes256gcm', 'chacha20-poly1305']) if ver == (3, 4) else 'aes128'
+    nst = rng.choice([-1, 0, 1, 2, 3]) if ver == (3, 4) else rng.choice([-1, 1])
+    c_rsl = rng.choice([None] * 5 + [64, 100, 300, 1000])
+    if ver != (3, 4) and nst >= 0 and c_rsl is not None:
+        # (outside C16, reported: TLS <= 1.2 + tickets + a client record_size_limit below the size of the
+        # unprotected NewSessionTicket message makes the client abort the handshake with record_overflow)
+        c_rsl = 1000
     return dict(seed=seed, ver=list(ver), c_hb=c_hb, s_hb=s_hb, c_cb=rng.random() < 0.85, s_cb=rng.random() < 0.85,
                 c_cert=rng.random() < (0.85 if ver == (3, 4) else 0.3), cert_required=rng.random() < 0.3,
-                nst=rng.choice([-1, 0, 1, 2, 3]) if ver == (3, 4) else rng.choice([-1, 1]),
+                nst=nst,
                 cipher=cipher, ccred=rng.choice(['client-rsa', 'client-ecdsa', 'client-ed25519']),
-                recsize=rng.choice([16384, 16384, 16384, 64, 100, 257, 1024]))
+                recsize=rng.choice([16384, 16384, 16384, 64, 100, 257, 1024]),
+                # RFC 8449 record_size_limit: asymmetric send limits of the two directions
+                c_rsl=c_rsl, s_rsl=rng.choice([None] * 5 + [64, 100, 300, 1000]))
 
 
 def random_ops(H, n):
@@ -311,10 +338,8 @@ def random_ops(H, n):
         elif r < 0.72:
             H.do(a, ('OKeyUpdate', rng.random() < 0.5))
         elif r < 0.80:
-            pl = rdata(rng, 40)
-            if 3 + len(pl) + 16 > conn.recordSize:          # oversize requests are generated on purpose elsewhere
-                pl = pl[:max(0, conn.recordSize - 40)]
-            H.do(a, ('OHeartbeat', pl, rng.choice([16, 16, 17, 20])))
+            pl, pad = hb_payload(H, a)
+            H.do(a, ('OHeartbeat', pl, pad))
         elif r < 0.86:
             H.do(False, ('ORequestAuth', True))
         elif r < 0.89:
@@ -328,7 +353,29 @@ def random_ops(H, n):
             H.do(a, ('ORead', 0))
 
 
-MACROS = ['simul', 'burst', 'ku-frag', 'pha', 'pha2', 'hb', 'tickets', 'none', 'ku-pingpong']
+def hb_payload(H, a, craft=None):
+    """heartbeat request sizes around BOTH limits: the requester's send limit (largest request that fits /
+    first that is refused) and the responder's (largest request still answered / first whose answer would
+    have to be fragmented).  Optionally the payload is shaped so that, IF the answer were fragmented at
+    the responder's limit, its second record would parse as a heartbeat message of its own."""
+    rng, L = H.rng, H.live
+    rs_me, rs_peer = L.conn(a).recordSize, L.conn(not a).recordSize
+    pad = rng.choice([16, 16, 16, 17, 20, 0])
+    cands = [rng.randrange(0, 40), rng.randrange(0, 40), rs_me - 3 - pad - 1, rs_me - 3 - pad, rs_me - 3 - pad + 1,
+             rs_peer - 19 - 1, rs_peer - 19, rs_peer - 19 + 1, rs_peer - 19 + rng.randrange(2, 30), rs_peer + 5]
+    cands = [c for c in cands if 0 <= c <= 1100]
+    n = rng.choice(cands)
+    pl = bytearray(rng.randrange(256) for _ in range(n))
+    if craft is None:
+        craft = rng.random() < 0.5
+    off = rs_peer - 3                    # where the 2nd record of a fragmented answer would start (in the payload)
+    if craft and 0 <= off and off + 3 <= n:
+        k = min(n - off - 3, rng.choice([1, 4, 9]))
+        pl[off:off + 3] = bytes([rng.choice([2, 2, 1]), 0, k])
+    return bytes(pl), pad
+
+
+MACROS = ['simul', 'burst', 'ku-frag', 'pha', 'pha2', 'hb', 'tickets', 'none', 'ku-pingpong', 'ku-split', 'hb-asym', 'hb-asym']
 
 
 def macro(H, name):
@@ -372,6 +419,26 @@ def macro(H, name):
     elif name == 'tickets':
         if L.v13 and L.cfg['nst'] >= 0 and H.open_(False):
             H.do(False, ('OTickets', rng.choice([1, 2, 4])), tag='tickets')
+    elif name == 'ku-split':            # a (legal) KeyUpdate spread over two records, keys changed after it
+        if L.v13:
+            a = rng.random() < 0.5
+            if H.open_(a):
+                H.do(a, ('OKeyUpdate', rng.random() < 0.5, rng.choice([1, 2, 3, 4])), tag='ku-split')
+                H.do(a, ('OWrite', rdata(rng, 40)))
+                H.do(not a, ('ORead', 0))
+    elif name == 'hb-asym':             # asymmetric record sizes, requests around both limits, both directions
+        a = rng.random() < 0.5
+        if H.negotiated_hb() and H.open_(a) and H.open_(not a):
+            H.do(not a, ('OSetRecSize', rng.choice([64, 80, 100, 130])), tag='hb-asymmetric-limits')
+            H.do(a, ('OSetRecSize', rng.choice([257, 1024, 16384])))
+            for _ in range(rng.randrange(1, 4)):
+                pl, pad = hb_payload(H, a, craft=rng.random() < 0.7)
+                H.do(a, ('OHeartbeat', pl, pad))
+                H.do(not a, ('ORead', 0))
+                H.do(a, ('ORead', 0))
+            if rng.random() < 0.5:
+                pl, pad = hb_payload(H, not a)
+                H.do(not a, ('OHeartbeat', pl, pad))
     elif name == 'ku-pingpong':
         for _ in range(rng.randrange(2, 5)):
             a = rng.random() < 0.5
@@ -387,7 +454,9 @@ def deviation(H):
                'cert-unsolicited', 'cert-unknown-ctx', 'cert-to-client', 'cv-stray', 'fin-stray', 'hb-not-negotiated',
                'hb-empty', 'hb-short-pad', 'hb-unsolicited-resp', 'hb-garbage', 'hb-unknown-type', 'hb-oversize',
                'hb-oversize-crafted', 'pha-dev', 'pha-dev', 'pha-dev', 'pha-dev', 'pha-dev', 'pha-empty-compress',
-               'pha-replay', 'pha-replay', 'pha-replay']
+               'pha-replay', 'pha-replay', 'pha-replay',
+               # record-alignment violations of the key-changing messages (RFC 8446 5.1)
+               'ku-coalesced', 'ku-coalesced', 'ku-coalesced', 'ku-coalesced', 'finx-stray', 'pha-dev7', 'pha-dev7']
     if not v13:
         choices = ['unexp-hs', 'hb-not-negotiated', 'hb-empty', 'hb-short-pad', 'hb-unsolicited-resp', 'hb-garbage',
                    'hb-unknown-type', 'hb-oversize', 'hb-oversize-crafted', 'nst-v12']
@@ -396,7 +465,17 @@ def deviation(H):
     hbneg = H.negotiated_hb()
     if not hbneg and rng.random() < 0.6:
         d = 'hb-not-negotiated'
-    if d == 'ku-bad-value':
+    if d == 'ku-coalesced':
+        # KeyUpdate (valid or not) followed in its record by a whole message / by the first bytes of one
+        kind = rng.choice(['nst', 'ku', 'frag', 'frag1', 'certreq'])
+        if rng.random() < 0.4:
+            H.do(a, ('OKeyUpdate', rng.random() < 0.5))      # (a correctly aligned one first)
+        H.inject(a, ('MKUx', rng.choice([0, 0, 1, 1, 2]), kind), d + ':' + kind, (10,))
+        if rng.random() < 0.5:
+            H.do(a, ('OWrite', rdata(rng, 30)))
+    elif d == 'finx-stray':
+        H.inject(a, ('MFinx', False, rng.choice(['nst', 'ku', 'frag'])), d, (10,))
+    elif d == 'ku-bad-value':
         H.inject(a, ('MKU', rng.choice([2, 3, 255, 128])), d, (47,))
     elif d == 'ku-bad-len':
         H.inject(a, ('MKU', -1), d, (50,))
@@ -455,10 +534,10 @@ def deviation(H):
         inner = [1, 0, 5] + list(b'hello') + [0x33] * 20
         pl = bytes([0x42] * (rs - 3)) + bytes(inner)
         H.do(a, ('OHeartbeat', pl, 0), tag='hb-oversize')
-    elif d == 'pha-dev':
+    elif d in ('pha-dev', 'pha-dev7'):
         if L.c._client_keypair:
             H.honest = False
-            mode = rng.choice([1, 2, 3, 4, 5, 6])
+            mode = 7 if d == 'pha-dev7' else rng.choice([1, 2, 3, 4, 5, 6, 7])
             if mode == 4:               # a genuinely replayed context: answer one request honestly first
                 H.do(False, ('ORequestAuth', True))
                 H.do(True, ('ORead', 0))
@@ -558,6 +637,10 @@ def msg_lit(m):
         return '(MFin %s)' % boollit(m[1])
     if k == 'MUnexp':
         return 'MUnexp'
+    if k == 'MKUx':
+        return '(MKUx %s)' % zlit(m[1])
+    if k == 'MFinx':
+        return '(MFinx %s)' % boollit(m[1])
     raise ValueError(k)
 
 
@@ -578,7 +661,7 @@ def op_lit(op):
     if k == 'OClose':
         return 'OClose'
     if k == 'OSetRecSize':
-        return '(OSetRecSize %d)' % op[1]
+        return '(OSetRecSize %d)' % (op[2] if len(op) > 2 else op[1])
     if k == 'OSetDev':
         return '(OSetDev %d)' % op[1]
     if k == 'OInject':
